@@ -8,11 +8,13 @@ import Ggql.Model.Skip
 import Ggql.Model.LockTable
 import Ggql.Model.Coerce
 import Ggql.Driver.PinnedCoerce
+import Ggql.Model.ValueText
 namespace Ggql.Driver
 
 structure Tables where
   skip : Skip.Table
   locks : List LockTable.Access
+  valueTbl : ValueText.Tbl
   outInt : Coerce.Table
   inInt : Coerce.Table
   outInt64 : Coerce.Table
@@ -30,8 +32,17 @@ structure Tables where
   outTime : Coerce.Table
   inTime : Coerce.Table
 
+/-- snapshot of `Gen/Tables.lean` at the pinned commit -/
+def pinnedValueTbl : ValueText.Tbl :=
+  { charMap := (".........ww..w..................wp......pp..w.p.ttttttttttp..p..pttttttttttttttttttttttttttp.p.t.ttttttttttttttttttttttttttppp..".toList.map Char.toNat) ++ List.replicate 128 46,
+    numMap := ("...........................................n.nn.nnnnnnnnnn...........n...............................n..........................".toList.map Char.toNat) ++ List.replicate 128 46,
+    spaceClass := 119, tokenClass := 116, numClass := 110,
+    escapes := [(8, [92, 98]), (12, [92, 102]), (10, [92, 110]), (13, [92, 114]), (9, [92, 116]), (92, [92, 92]), (34, [92, 34])],
+    unescapes := [(34, 34), (92, 92), (47, 47), (98, 8), (102, 12), (110, 10), (114, 13), (116, 9)],
+    terminators := [0, 32, 9, 10, 13, 12, 44, 125, 93, 123, 91, 41] }
+
 def pinnedTables : Tables :=
-  { skip := Skip.tableAssign,
+  { skip := Skip.tableAssign, valueTbl := pinnedValueTbl,
     -- pinned: the one unguarded site of the pinned tree (D26)
     locks := [⟨"regField", .objMeta, false, [.fdMu], true⟩, ⟨"assureType", .objMeta, true, [.objMu], true⟩],
     outInt := Pinned.coerceOutInt, inInt := Pinned.coerceInInt,
